@@ -19,6 +19,8 @@ VARIABLES ds,      \* the input data set (never changes: InputUnmodified at desi
 vars == <<ds, opts, pc, idx, skip, used, fixed, feats>>
 
 CONSTANTS Chunks,  \* the data sets are dealt into this many chunks so that TLC's workers share the enumeration
+          FormerTree,\* FALSE: the machine is the tree as it is (identity and memberships independent of the id class);
+                   \* TRUE: the tree before fixes b715ff7 / 51b669e (FeatureID keyed), to re-check that transcription
           Variants,\* the Model variants explored: {FALSE} or {FALSE, TRUE}
           FullFor  \* the families (case.fam) whose cases the machine runs under all 16 option sets; the other
                    \* cases run under {} and under all four options only (the functional composition ConvV is
@@ -30,7 +32,7 @@ DsOf(c) == [nodes |-> c.nodes, ways |-> c.ways, rels |-> c.rels, ids |-> c.ids]
 Init == ds = Empty /\ opts = {} /\ pc = "pick" /\ idx \in 1 .. Chunks /\ skip = {} /\ used = {} /\ fixed \in Variants /\ feats = << >>
 
 Pick == /\ pc = "pick"
-        /\ \E k \in {j \in DOMAIN DSeq : j % Chunks = idx % Chunks} : ds' = DsOf(DSeq[k]) /\ opts' \in McOpts(DSeq[k])
+        /\ \E k \in {j \in DOMAIN DSeq : j % Chunks = idx % Chunks} : ds' = (IF FormerTree THEN DsOf(DSeq[k]) ELSE Ideal(DsOf(DSeq[k]))) /\ opts' \in McOpts(DSeq[k])
         /\ pc' = "rel" /\ idx' = 1 /\ UNCHANGED <<skip, used, fixed, feats>>
 
 RelStep == /\ pc = "rel" /\ idx <= Len(ds.rels)
@@ -56,9 +58,10 @@ Spec == Init /\ [][Next]_vars
 Done == pc = "done"
 
 (* ---- design level: Model |= Judges --------------------------------------- *)
-\* The machine (and Conv) transcribe the tree as it is, including what it does with ids that do not fit
-\* osm.FeatureID.  The Judges are checked on the ideal variant (the same data set with ids that fit), and the tree
-\* as it is must coincide with the ideal variant on every data set on which no known-finding predicate holds.
+\* With FormerTree the machine transcribes the tree before fixes b715ff7 / 51b669e, including what it did with ids
+\* that do not fit osm.FeatureID: the Judges are checked on the ideal variant (the same data set with ids that fit),
+\* and the former tree must coincide with the ideal variant on every data set on which no known-finding predicate
+\* holds.  Without FormerTree (the tree as it is) the machine is the ideal variant itself.
 KFid(d) == KF_PolygonIdentityViaFeatureID(d) \/ KF_NegativeIdsShareMembershipKey(d)
 \* (the Model reads ds.ids only through Fits and = "neg": when all three classes fit, the two variants are the same expression)
 AllFit(d) == \A t \in {"node", "way", "relation"} : Fits(d.ids[t])
